@@ -96,11 +96,13 @@ class Report:
             lines.append(f"KNOWN-FINDING: property={self.prop} {o.key} ({o.loc}) {open_keys[o.key].get('what', o.text)}")
         code = 0
         replay_dir = VERIF / "replay"
+        quiet = bool(os.environ.get("TLVERIF_NO_EVIDENCE"))
         for o in unknown_viol:
-            replay_dir.mkdir(exist_ok=True)
             h = hashlib.sha1(o.key.encode()).hexdigest()[:10]
             rp = replay_dir / f"{self.prop}-{h}.json"
-            rp.write_text(json.dumps({"property": self.prop, **o.as_json()}, indent=1, default=str))
+            if not quiet:
+                replay_dir.mkdir(exist_ok=True)
+                rp.write_text(json.dumps({"property": self.prop, **o.as_json()}, indent=1, default=str))
             lines.append(f"VIOLATION property={self.prop} replay={rp}")
             lines.append(f"  rule {o.rule} at {o.loc}: {o.key}")
             lines.append(f"  {o.text}")
@@ -157,9 +159,10 @@ class Report:
             "wall_s": round(wall, 3),
             "violations": len(unknown_viol),
         }
-        evdir = VERIF / "evidence"
-        evdir.mkdir(exist_ok=True)
-        (evdir / f"{self.prop}.json").write_text(json.dumps(ev, indent=1, default=str) + "\n")
+        if not quiet:
+            evdir = VERIF / "evidence"
+            evdir.mkdir(exist_ok=True)
+            (evdir / f"{self.prop}.json").write_text(json.dumps(ev, indent=1, default=str) + "\n")
         print(
             f"[{self.prop}] tier={self.tier} rules={len(self.rules)} obligations={len(self.obligations)} "
             f"held={len(held)} known={len(known_viol)} new-violations={len(unknown_viol)} undecided={len(und)} "
@@ -179,6 +182,8 @@ def load_known() -> dict:
 
 
 def write_failure_evidence(prop: str, tier: str, seed: int, msg: str):
+    if os.environ.get("TLVERIF_NO_EVIDENCE"):
+        return
     ev = {
         "property_id": prop,
         "tier": tier,
